@@ -145,7 +145,15 @@ func GenSyscallGroup(r *mon.Rand, o EventOpts) Group {
 	}
 	if r.Chance(1, 3) {
 		ip := [4]byte{10, byte(r.Intn(250) + 1), byte(r.Intn(250) + 1), byte(r.Intn(250) + 1)}
-		switch r.Intn(3) {
+		switch r.Intn(5) {
+		case 3:
+			// AF_NETLINK: struct sockaddr_nl {family, pad, pid, groups}: not decoded, the raw text is the only copy
+			b := append([]byte{16, 0, 0, 0}, r.Bytes(8)...)
+			add(fmt.Sprintf("type=SOCKADDR %s saddr=%s", hdr, Hex(b)))
+		case 4:
+			// a family the parser does not decode (AF_PACKET, AF_BLUETOOTH, AF_VSOCK, ...)
+			b := append([]byte{mon.Pick(r, []byte{17, 31, 40, 38, 5, 29}), 0}, r.Bytes(r.Range(6, 26))...)
+			add(fmt.Sprintf("type=SOCKADDR %s saddr=%s", hdr, Hex(b)))
 		case 0:
 			add(fmt.Sprintf("type=SOCKADDR %s saddr=%s", hdr, SockaddrInet4(ip, uint16(1024+r.Intn(60000)))))
 		case 1:
